@@ -1,6 +1,6 @@
 (* C27 — Peer-controlled retained state stays bounded. *)
 From H2 Require Import Base.Prelude Base.PyDict Model.FsmTypes Gen.Consts Model.Types Model.StreamFSM Model.Headers Model.ConnState Model.Connection
-  Model.FrameBuffer Proofs.C18Proofs Proofs.C23Proofs Proofs.C27Proofs Proofs.C21Proofs.
+  Model.FrameBuffer Model.Settings Proofs.C18Proofs Proofs.C23Proofs Proofs.C27Proofs Proofs.C21Proofs Proofs.C27Ack.
 
 (* the memory of closed streams never exceeds MAX_CLOSED_STREAMS, for every history of calls and frames
    (induction over all operations, no bound on length; the eviction test is extracted from SizeLimitDict) *)
@@ -53,3 +53,15 @@ Theorem C27_long_header_block_is_refused :
   forall h f, h <> [] -> zlen h >= CONTINUATION_BACKLOG -> exists h', update_header_buffer h f = inl (EProtocol, h').
 Proof. exact (long_block_refused unit unit (fun s _ => (s, None))). Qed.
 Print Assumptions C27_long_header_block_is_refused.
+
+(* the caps the peer is held to follow the acknowledged settings: when a SETTINGS ACK has been processed and its
+   changes [ch] contain MAX_HEADER_LIST_SIZE, the decoder's cap IS the new value (otherwise it is untouched), and
+   likewise MAX_FRAME_SIZE for the frame buffer — whatever else the same acknowledgement changes
+   (INITIAL_WINDOW_SIZE, several keys at once).  Together with C27_oversized_header_list_is_refused: a header list
+   above the acknowledged MAX_HEADER_LIST_SIZE is refused from that point on. *)
+Theorem C27_acknowledged_caps_are_in_force :
+  forall c c' ch, local_settings_acked c = (c', Ok ch) ->
+    c_dec_max_hls c' = match changed_lookup SC_MAX_HEADER_LIST_SIZE ch with Some (_, new) => new | None => c_dec_max_hls c end /\
+    c_max_in_frame c' = match changed_lookup SC_MAX_FRAME_SIZE ch with Some (_, new) => new | None => c_max_in_frame c end.
+Proof. exact Proofs.C27Ack.acked_limits_in_force. Qed.
+Print Assumptions C27_acknowledged_caps_are_in_force.
